@@ -307,7 +307,8 @@ let op_logline opidx impl toks =
       let rqt, rpt = split_bar rest [] in
       let rq = tlvs_of_tokens rqt and rp = tlvs_of_tokens rpt in
       let keyo = if key = "-" then None else Some (bytes_of_hex key) in
-      let mode = n_of_int (int_of_string mode) in
+      (* "d": no FTicksMAC line in the configuration -- the documented default, VendorKeyHashed *)
+      let mode = if mode = "d" then Consts.coq_RSP_MAC_VENDOR_KEY_HASHED else n_of_int (int_of_string mode) in
       let rcode = int_of_string rcode and qcode = int_of_string qcode in
       let s = string_of_bytes in
       let line =
